@@ -15,13 +15,17 @@ RULE = ('each run = one seeded history of 2..8 operations on a Message or Segmen
         'variants: return_errors twice, raising form, report to a path (simulated file system) and to a file-like object, with '
         'seeded open / k-th write (incl. short write) / close errors; checked: validate changes nothing (encoding, child '
         'identities), two calls agree, is_valid == no errors, the raising form raises exactly errors[0], the report holds '
-        'exactly "Error: e" / "Warning: w" lines, and an injected I/O error surfaces instead of validate() completing; '
+        'exactly "Error: e" / "Warning: w" lines, an injected I/O error surfaces instead of validate() completing; and on the '
+        'reached state every structural defect the reference model predicts from the tables (required child missing, maximum '
+        'exceeded, child not allowed, restructured datatype) is named by an error, while a state reached from a cleanly '
+        'validating start by valid writes without predicted defect must still validate; '
         'non-trivial = >= 2 operations, >= 1 accepted')
 
 
 def required_probes(tier):
     return ['c04_errors_form', 'c04_raise_with_errors', 'c04_raise_valid', 'c04_report_exact', 'c04_report_nonempty',
-            'c04_report_fault_fired', 'c04_valid_state', 'c04_invalid_state', 'report_file_open_error',
+            'c04_report_fault_fired', 'c04_valid_state', 'c04_invalid_state', 'c04_verdict_checked', 'c04_predicted_defect_missing',
+            'c04_predicted_defect_exceeded', 'c04_conforming_state_checked', 'report_file_open_error',
             'report_file_write_error', 'report_file_close_error']
 
 
